@@ -10,12 +10,20 @@ RULE = ('A case is (base, message list, readiness answers, transport answer scri
         '0 / -1 / exception at EVERY write-call index of short queues; readiness False runs. The real Session.run loop runs in its '
         'thread over an in-memory transport. Concurrent cases: 2-4 real submitter threads calling Session.send while the worker '
         'writes under random short writes; put order observed at the queue. thorough: every composition of short frames '
-        'into accepted counts. distinct = distinct case; non-trivial = at least one non-empty message.')
+        'into accepted counts. Peer cases (quick 5 tls + 5 ssh + 2 unix, thorough 60 + 60 + 20): the REAL transports - TLSSession.connect to an '
+        'ssl server on 127.0.0.1, SSHSession.connect to an in-process paramiko server, UnixSocketSession over a socketpair - after a real '
+        'hello exchange (base:1.1 negotiated for 1.1 cases) the client submits 1-5 pool messages, half of the cases with one message of '
+        '40-400 kB while the scripted server starts reading 0-50 ms late (real short writes: paramiko accepts at most one packet per '
+        'send); the octets the server received are decoded by the strict receivers; the counts returned by the real _transport_write '
+        'are recorded in a subclass (resubmission of the unsent tail, accepted == received). A failing peer case is re-executed 3 times. '
+        'distinct = distinct case; non-trivial = at least one non-empty message.')
 ASSUMES = ['queue.Queue is FIFO and thread-safe; a transport returning n has taken data[:n] (n > len(data) means everything)',
            'messages are str: str.encode() is UTF-8; the model works on the octets',
            'CPython bytes %-formatting (b"%i") prints decimal without sign/padding: validated by every 1.1 case']
 TRUSTED = ['modelled, not verified: queue.Queue, threading, CPython bytes formatting/slicing',
-           'tools/harness/fakesession.py in-memory transport and selector shim (rebinds ncclient.transport.session.selectors/TICK)']
+           'tools/harness/fakesession.py in-memory transport and selector shim (rebinds ncclient.transport.session.selectors/TICK)',
+           'peer cases: tools/harness/c01_peers.py (scripted TLS/SSH/Unix servers, recording session subclasses), c12_peers.py (certificates, host key); '
+           'OpenSSL, paramiko and the loopback stack are peers, not verified; wall-clock bound 10 s per connection']
 
 BIG = 20000
 CHUNK_MAX = 4294967295
@@ -400,6 +408,10 @@ def decoder_streams(rng, wires):
 def run_any(ctx, case, mo=None):
     if case.get('kind') == 'concurrent':
         return check_concurrent(ctx, case)
+    if case.get('kind') == 'peer':
+        from vlib import paths; paths.use_repo()
+        obs, probs, mism = check_peer(ctx, case)
+        return dict(obs, wire=obs['wire'][:60].hex() + ('...' if len(obs['wire']) > 60 else '')), probs, mism
     if mo is None and ctx.model is not None:
         mo = ctx.model.call(model_call(case))
     return confirmed(ctx, case, mo)
@@ -488,10 +500,95 @@ def run(ctx):
                 ctx.disagree({'kind': 'decoder', 'base': b, 'wire': w.hex()}, None if co is None else [x.hex() for x in co],
                              None if py is None else [x.hex() for x in py], 'WireSpec.decode vs Python strict receiver', theorem='C02_decode11/C02_decode10')
         ctx.extra['decoder_crosscheck_streams'] = len(streams)
+    # (f) the same property sentence behind the real transports
+    if not too_many(ctx):
+        peers_level(ctx)
+
+# ---------- (f) outbound direction through the real transports (TLS on loopback, SSH against an in-process paramiko server, Unix) ----------
+def gen_peer(rng, transport):
+    base = rng.choice([0, 1])
+    msgs = gen_msgs(rng)
+    delay = 0
+    if rng.random() < 0.5:          # one message far larger than a socket buffer / an SSH packet, the server starts reading late
+        unit = rng.choice(['é€x', '<v>0123456789</v>', '\U0001F600', 'q'])
+        msgs.insert(rng.randrange(len(msgs) + 1), '<data>%s</data>' % (unit * (rng.randint(40000, 400000) // len(unit.encode()))))
+        delay = rng.choice([0, 20, 50])
+    return dict(kind='peer', transport=transport, base=base, msgs=msgs, reader_delay_ms=delay)
+
+def oracle_peer(case, obs):
+    out = []
+    base, mbs = case['base'], [m.encode() for m in case['msgs']]
+    if obs['open_error']:
+        return [('the session could not be opened against the scripted server', None, obs['open_error'])]
+    ch = strict_decode10(obs['client_hello'])
+    if ch is None or len(ch) != 1 or b'hello' not in ch[0] or obs['client_hello'].startswith(b'\n#'):
+        out.append(('the client <hello> is not exactly one end-of-message frame', 'one RFC 4742 frame holding <hello>', obs['client_hello'][:120].hex()))
+    if obs['errors_before_close']:
+        out.append(('session failed although the transport accepted every write', [], obs['errors_before_close']))
+    dec = strict_decode(base, obs['wire'])
+    if dec != mbs:
+        out.append(('strict RFC %s receiver behind the real transport does not get the submitted messages' % ('6242' if base else '4742'),
+                    [m.hex()[:200] for m in mbs], None if dec is None else [m.hex()[:200] for m in dec]))
+    w = obs.get('writes', [])
+    if any(not (0 < n <= l) for _, l, n in w):
+        out.append(('a write count outside 1..len(data) was treated as progress', 'counts in 1..len', [(l, n) for _, l, n in w if not (0 < n <= l)][:5]))
+    for (_, l1, n1), (_, l2, _) in zip(w, w[1:]):
+        if n1 < l1 and l2 != l1 - n1:
+            out.append(('write call does not resubmit the unsent tail', l1 - n1, l2)); break
+    if sum(n for _, _, n in w) != len(obs['wire']):
+        out.append(('octets accepted by the transport != octets received by the peer', sum(n for _, _, n in w), len(obs['wire'])))
+    if obs.get('queue_left'):
+        out.append(('queue not drained within the bound', 0, obs['queue_left']))
+    if obs['worker_alive_after_close']:
+        out.append(('session thread alive after close()', False, True))
+    return out
+
+def check_peer(ctx, case):
+    from harness import c01_peers as q
+    from harness import fakesession_wire as fs
+    fs.uninstall()                  # the real transports need the real selectors / TICK in ncclient.transport.session
+    c = dict(case, base=11 if case['base'] == 1 else 10)
+    last = None
+    for _ in range(4):              # wall-clock rig: report only what fails every time
+        def done(wire, base=case['base'], n=len(case['msgs'])):
+            d = strict_decode(base, wire)
+            return d is not None and len(d) >= n
+        obs = q.run_outbound(c, done)
+        probs = oracle_peer(case, obs)
+        last = (obs, probs, None)
+        if not probs: break
+    return last
+
+def peers_level(ctx):
+    from harness import c01_peers as q
+    rng, quick = ctx.rng, ctx.tier == 'quick'
+    res0 = q.resources()
+    per = {'tls': 5, 'ssh': 5, 'unix': 2} if quick else {'tls': 60, 'ssh': 60, 'unix': 20}
+    n = 0
+    for transport in ('tls', 'ssh', 'unix'):
+        for _ in range(per[transport]):
+            if too_many(ctx): break
+            case = gen_peer(rng, transport)
+            obs, probs, _ = check_peer(ctx, case)
+            n += 1
+            ctx.count({k: case[k] for k in ('kind', 'transport', 'base', 'msgs', 'reader_delay_ms')}, nontrivial=True)
+            ctx.hist('peer_transport', '%s/%s' % (transport, '1.1' if case['base'] else '1.0'))
+            w = obs.get('writes', [])
+            ctx.hist('peer_short_writes', 'none' if not any(x < l for _, l, x in w) else ('1-9' if sum(1 for _, l, x in w if x < l) < 10 else '10+'))
+            ctx.hist('peer_wire_octets', '<1k' if len(obs['wire']) < 1000 else ('<64k' if len(obs['wire']) < 65536 else '>=64k'))
+            if not probs: ctx.traces += 1
+            report(ctx, case, dict(obs, wire=''), probs, None)
+    dfd, extra = q.settle_resources(res0)
+    ctx.extra['peer_cases'] = n
+    ctx.extra['peer_fd_delta_after_all_cases'] = dfd
+    ctx.extra['peer_threads_left_after_all_cases'] = extra
+    if dfd > 0 or extra:
+        ctx.note('peer level left %d file descriptors / threads %r behind' % (dfd, extra))
+
 
 def search(ctx, seeds):
     rng = ctx.rng
-    tries = [c for c in seeds if c.get('kind') != 'decoder']
+    tries = [c for c in seeds if c.get('kind') not in ('decoder', 'peer')]
     for _ in range(1500): tries.append(gen_case(rng))
     for base in (0, 1): tries.extend(failure_cases(base, ['ab', 'naïve'], 3))
     for _ in range(30): tries.append(gen_concurrent(rng))
@@ -519,7 +616,8 @@ def replay(doc):
     if case.get('kind') == 'decoder':
         print('decoder cross-check case', case); return False
     obs, probs, _ = run_any(_NoModel, case)
-    print('case     :', {k: v for k, v in case.items() if k != 'answers'}, 'answers:', case.get('answers', [])[:12])
+    print('case     :', {k: (v if k != 'msgs' else [m if len(m) < 80 else m[:60] + '...(%d chars)' % len(m) for m in v]) for k, v in case.items() if k != 'answers'},
+          'answers:', case.get('answers', [])[:12])
     if probs:
         for what, exp, act in probs:
             print('FAILS    :', what); print('expected :', exp); print('actual   :', act)
